@@ -434,7 +434,7 @@ def c19():
 
 # ------------------------------------------------------------------------------------------- C10
 META["C10"] = {
-    "bounds": "DirectCmap vs CachedCmap built from the same table bytes (served twice by the table provider): one (3,1) format 4 subtable with 2..3 segments incl. the 0xFFFF terminator, delta-mapped, idDelta symbolic; quick: code-point ranges enumerated by the query list (ten shapes: U+0000 first, block boundary 0xFF/0x100, adjacent segments, 0xFFFD..0xFFFE); thorough: ranges symbolic, at most 4 code points per segment (cadical, ~1100 s); every 32-bit code point looked up through both paths; table ownership of both paths",
+    "bounds": "DirectCmap vs CachedCmap built from the same table bytes (served twice by the table provider): one (3,1) format 4 subtable with 2..4 segments incl. the 0xFFFF terminator, delta-mapped, idDelta symbolic; quick: code-point ranges enumerated by the query list (twelve shapes: U+0000 first, block boundary 0xFF/0x100, adjacent segments, 0xFFFD..0xFFFE); thorough: ranges symbolic, at most 4 code points per segment (cadical, ~1100 s); every 32-bit code point looked up through both paths; table ownership of both paths",
     "outside": "glyph preloading vs lazy loading (needs the GlyphCache loader over symbolic glyf/loca/Glat/Gloc tables: not harnessed), file face vs callbacks, dumbRendering bit, segment-level equality; format 12 / several subtables; idRangeOffset segments; terminator segments that map U+FFFF to a non-zero glyph (the cache never holds U+FFFF: DESIGN 9.3)",
     "assumptions": ["well-formed subtable: sorted disjoint segments, terminator maps to glyph 0"],
 }
@@ -444,10 +444,11 @@ def c10():
     US = {"vh_cmap_paths": 60, "vh_get_table": 60, "vh_bytes": 60, "cache_subtable.*": 12, "CachedCmap": 260, "_CachedCmap": 260, "FindCmapSubtable": 3,
           "CmapSubtable4Lookup": 4, "CmapSubtable4NextCodepoint": 5, "lid:CachedCmapD": 260}
     cases = [(2, "0,1"), (2, "0,2"), (2, "5,6"), (2, "65,67"), (2, "254,257"), (2, "65533,65534"),
-             (3, "65,66,67,68"), (3, "0,0,1,2"), (3, "32,33,40,41"), (3, "255,255,256,256")]
+             (3, "65,66,67,68"), (3, "0,0,1,2"), (3, "32,33,40,41"), (3, "255,255,256,256"),
+             (4, "32,33,65,66,67,68"), (4, "0,1,2,2,3,4")]     # range key 0 means "search": the stale-key path needs a segment index >= 1 before the adjacent one
     for n, rg in cases:
-        qs.append(Q(f"cmap_paths_seg{n}_r{rg.replace(',', '_')}", "cmap_paths.cpp", "vh_cmap_paths", {"NSEG": n, "RANGES": rg}, unwind=8, unwindset=US,
-                    cc_defs=["LL_MEM_CASES=0,44,52,176,512,2048,34816"]))
+        qs.append(Q(f"cmap_paths_seg{n}_r{rg.replace(',', '_')}", "cmap_paths.cpp", "vh_cmap_paths", {"NSEG": n, "RANGES": rg}, unwind=8, unwindset=US, cbmc_flags=["--sat-solver", "cadical"], est_gb=6,
+                    cc_defs=["LL_MEM_CASES=0,44,52,60,176,512,2048,34816"]))
     qs.append(Q("cmap_paths_seg2_symbolic", "cmap_paths.cpp", "vh_cmap_paths", {"NSEG": 2}, unwind=8, unwindset=US, tiers=("thorough",), timeout=1700,
                 cbmc_flags=["--sat-solver", "cadical"], cc_defs=["LL_MEM_CASES=0,44,52,176,512,2048,34816"]))
     return qs
